@@ -293,7 +293,8 @@ def alma_params(F, R):
                     centre_arg = a
         for c, t in mm['init'].items():
             for a in fargs:
-                if a != centre_arg and t == op('div', wl, a):
+                # the width N/sigma itself, or a constant derived from it that is stored instead (e.g. 2·s·s)
+                if a != centre_arg and any(x == op('div', wl, a) for x in subterms(t)):
                     ok_s = True
     R.ob('B2-alma', 'Alma:centre', ok_m, 'centre = offset·(N+1)' if ok_m else 'centre is not offset·(N+1)', v.file)
     R.ob('B2-alma', 'Alma:width', ok_s, 'width = N/sigma' if ok_s else 'width is not N/sigma', v.file)
@@ -351,7 +352,7 @@ def run_c04(F, R, tier='quick'):
     inert_none_path(F, R, ['Sma', 'Ema', 'Alma'], 'Q1')
     no_raw_in_state(F, R, ['Sma', 'Ema', 'Alma'], 'R2s')
     R.floor('B1', 3)
-    R.floor('M1', 3)
+    R.floor('M0', 2)
     R.floor('B2-ema', 4)
     R.floor('B2-alma', 4)
     R.decline('that Alma\'s per-sample weight values form the Gaussian kernel positioned as stated over the live window (weights are attached at insertion time) is a value property; rounding is not decided')
